@@ -79,8 +79,16 @@ def collection_copy_check(ctx, rng):
     rec.mon("C12.copy.equal")
     e = gen.edges(rng, rng.randint(1, 6))
     pairs = gen.pairs_from_edges(e)
-    hs = [physt.h1(np.asarray(gen.data_for_bins(rng, pairs, rng.randint(0, 15))), np.array(e), name=f"m{i}") for i in range(rng.randint(1, 3))]
-    col = HistogramCollection(*hs, name="col", title="T")
+    adaptive_members = rng.random() < 0.4
+    if adaptive_members:
+        # adaptive members: growing one member of a copy may not reach its siblings (they would keep contents for fewer bins)
+        col = physt.collection({f"m{i}": np.asarray([rng.uniform(0, 3) for _ in range(rng.randint(1, 6))]) for i in range(rng.randint(2, 3))}, "fixed_width", bin_width=1.0, adaptive=True)
+        col.name, col.title = "col", "T"
+        hs = list(col.histograms)
+        pairs = [[-6.0, -5.0], [8.0, 9.0]]  # values to fill later: outside the current range
+    else:
+        hs = [physt.h1(np.asarray(gen.data_for_bins(rng, pairs, rng.randint(0, 15))), np.array(e), name=f"m{i}") for i in range(rng.randint(1, 3))]
+        col = HistogramCollection(*hs, name="col", title="T")
     cp = col.copy()
     with attach.quiet():
         before_o = [snap.snapshot(x) for x in col.histograms]
@@ -109,6 +117,12 @@ def collection_copy_check(ctx, rng):
             d = snap.diff(b, snap.snapshot(x))
             if d:
                 rec.fail(monitor="C12.copy.equal", op="HistogramCollection.copy", symptom="mutating a member on one side of a collection copy changed the other side", diff=sorted(d), detail={})
+        for x in target.histograms:
+            probs = snap.wellformed_problems(x)
+            if probs:
+                rec.fail(monitor="C12.copy.equal", op="HistogramCollection.copy", symptom="mutating one member of a collection (copy) left a sibling ill-formed", diff=["wellformed"],
+                         detail={"problems": probs[:3], "adaptive": adaptive_members})
+                break
 
 
 def options_check(ctx, rng):
